@@ -128,6 +128,22 @@ def r2(ctx):
                 if 'files' in backslice(x, [c.args[0]]).field_names():
                     its.append(c)
         ctx.check(bool(its), rule, '%s|lists-files' % b.path, b.where(), 'iterates g.files', 'does not iterate g.files')
+        # every group of the iterator is emitted: in a writer with an explicit loop over the groups no path of the loop body gets back to
+        # the next group without having started the listing of the files of this one (an error return is the only other exit)
+        outer = [c for c in b.calls(r'Iterator>::next$|Iterator::next$') if any(b.local_name(p_) == 'groups' for p_ in backslice(b, [c.args[0]]).params)]
+        mine = [c for c in b.calls(r'slice::<impl \[T\]>::iter$|IntoIterator>::into_iter$|Vec<.*>::iter$') if 'files' in backslice(b, [c.args[0]]).field_names()]
+        if outer and mine:
+            N = outer[0]
+            some_t = None
+            for (bbx, idx, what) in b.operand_uses(N.dest[0]):
+                if what[0] == 'stmt' and what[1]['rv']['k'] == 'disc':
+                    for (b2, i2, w2) in b.operand_uses(what[1]['p'][0]):
+                        if w2[0] == 'switch':
+                            some_t = dict(zip(w2[1]['vals'], w2[1]['tgts'])).get(1)
+            skipped = some_t is not None and N.bb in b.reachable(some_t, avoid=[c.bb for c in mine])
+            ctx.check(some_t is not None and not skipped, rule, '%s|every-group-emitted' % b.path, N.where(), 'every group taken from the iterator is listed (no path of the loop body skips the listing)',
+                      'a group can be skipped by this writer (a path of the loop body returns to the next group without listing its files): the %s output then has fewer groups than the other formats '
+                      'and than the header statistics say - e.g. single-path groups of a --unique / --rf-under run' % fmt.replace('write_as_', ''))
         if fmt in ('write_as_text', 'write_as_csv'):
             lens = []
             for x in bodies:
